@@ -857,7 +857,10 @@ struct TemplateCore {
         const Char_T *var = (content + tag.Offset);
 
         while (loop_tag != nullptr) {
+            // The loop's value name has to be the whole name, or the part before '[': {var:items} is not 'item'.
             if ((loop_tag->ValueLength <= tag.Length) &&
+                ((loop_tag->ValueLength == tag.Length) ||
+                 (var[loop_tag->ValueLength] == TagPatterns::VariableIndexPrefix)) &&
                 StringUtils::IsEqual(var, (content + (loop_tag->Offset + loop_tag->ValueOffset)),
                                      loop_tag->ValueLength)) {
                 tag.IDLength = loop_tag->ValueLength;
